@@ -5,6 +5,7 @@ package main
 
 import (
 	"bytes"
+	"context"
 	"errors"
 	"fmt"
 	"math"
@@ -320,6 +321,8 @@ func ensureDir() {
 		panic(err)
 	}
 	workDir = d
+	// if an in-process line takes the fatal path the harness dies through atexit.Exit: do not leave the directory behind
+	atexit.Register(func() { _ = os.RemoveAll(d) })
 	if err = os.Chdir(d); err != nil {
 		panic(err)
 	}
@@ -359,11 +362,13 @@ func runChild(line string) {
 		fmt.Println("ATEXIT")
 		os.Stdout.Sync() //nolint:errcheck
 	})
-	fmt.Println("R " + execute(o))
+	fmt.Println("R " + hx.Safe(func() string { return execute(o) }))
 }
 
 func viaChild(line string) string {
-	cmd := exec.Command(os.Args[0], "child", line)
+	ctx, cancel := context.WithTimeout(context.Background(), 3*time.Second)
+	defer cancel()
+	cmd := exec.CommandContext(ctx, os.Args[0], "child", line)
 	cmd.Dir = workDir
 	var so, se bytes.Buffer
 	cmd.Stdout = &so
@@ -376,6 +381,9 @@ func viaChild(line string) string {
 			status = ee.ExitCode()
 		} else {
 			return "child-error"
+		}
+		if ctx.Err() != nil {
+			return "child-timeout"
 		}
 	}
 	result := ""
